@@ -6,6 +6,7 @@ mod hist;
 mod json;
 mod runner;
 mod sc_model;
+mod scen;
 mod stackmat;
 mod world;
 
